@@ -126,6 +126,33 @@ pub fn check(cx: &Cx, rep: &mut Report) {
             }
         }
     }
+    // R3 (pings): a ping has no handler event, but one that returned Ok has been through the mailbox: every message
+    // whose submission had completed before the ping began was handled before the ping returned
+    for p in ix.ops.iter().filter(|o| o.op == OpK::Ping && matches!(o.res, Some(Res::Ok))) {
+        let Some(pe) = p.e else { continue };
+        if ix.task_of(p.tag).is_none() {
+            continue;
+        }
+        for &a in &subs {
+            let m1 = &ix.ops[a];
+            if m1.tag != p.tag {
+                continue;
+            }
+            let Some(r1) = m1.e else { continue };
+            let completed = matches!((&m1.op, &m1.res), (OpK::Send | OpK::ForceSend, Some(Res::Ok)) | (OpK::Call, Some(Res::Reply { .. })));
+            if !completed || r1 >= p.b {
+                continue;
+            }
+            rep.premise("C01.R3.ping_is_a_barrier");
+            match ix.inv_of.get(&m1.msg).and_then(|v| v.first()) {
+                Some(e1) if ix.invs[*e1].i < pe => {}
+                other => {
+                    let at = other.map(|e| ix.invs[*e].i);
+                    rep.fail(P, "R3", format!("ping_overtook;p1={:?}", m1.path), format!("ping c{}#{} (begun #{}, returned Ok at #{pe}) overtook msg {} (op c{}#{} {:?} via {:?}, completed at #{r1}), which was handled at {at:?}", p.c, p.i, p.b, m1.msg, m1.c, m1.i, m1.op, m1.hk), vec![m1.b, r1, p.b, pe]);
+                }
+            }
+        }
+    }
     // R4: every completed invocation's (seq, fold) is the fold of the completed prefix of its object,
     // replies carry exactly that, and join returns the full handled sequence.
     let mut state: HashMap<Uid, (u64, u64, Vec<Uid>)> = HashMap::new(); // obj -> (seq, fold, handled)
